@@ -135,7 +135,7 @@ theorem readAt_fetchedSize (P : Params) (B : Bytes) (hc : 0 < P.chunk) (hB : B.l
     totalSize s.fetched ≤ totalSize (readAt P s o n reply).1.fetched ∧
     totalSize (readAt P s o n reply).1.fetched ≤ P.size := by
   obtain ⟨h1, h2, _⟩ := readAt_spec P B hc hB s hs o n reply hr
-  exact fetchedSize_of_inv P B s _ hs h1 h2
+  exact fetchedSize_of_inv P _ s _ ((inv_iff P B s).mp hs) ((inv_iff P B _).mp h1) h2
 
 /-- `Cache` (one `cacheAt`) keeps the invariant; `FetchedSize` is monotone and bounded. -/
 theorem cacheAt_inv (P : Params) (B : Bytes) (hc : 0 < P.chunk)
@@ -144,7 +144,25 @@ theorem cacheAt_inv (P : Params) (B : Bytes) (hc : 0 < P.chunk)
     totalSize s.fetched ≤ totalSize (cacheAt P s o n reply).1.fetched ∧
     totalSize (cacheAt P s o n reply).1.fetched ≤ P.size := by
   obtain ⟨h1, h2⟩ := cacheAt_spec P B hc s hs o n reply hr
-  exact ⟨h1, fetchedSize_of_inv P B s _ hs h1 h2⟩
+  exact ⟨h1, fetchedSize_of_inv P _ s _ ((inv_iff P B s).mp hs) ((inv_iff P B _).mp h1) h2⟩
+
+/-- The same for a cache that may hold truncated entries (a cache read returning short data):
+if every entry is a prefix of the true bytes of its grid chunk (`CachePrefixOK`, weaker than
+`CacheOK`), `ReadAt` still returns an error or exactly the right bytes, and keeps that weaker
+invariant.  A short cache read is treated as a miss, never copied as if complete. -/
+theorem readAt_exact_truncated_cache (P : Params) (B : Bytes) (hc : 0 < P.chunk)
+    (hB : B.length = P.size) (s : St) (hcache : CachePrefixOK P B s.cache) (hwf : WF s.fetched)
+    (hin : InBlob P.size s.fetched) (o n : Nat) (reply : Reply) (hr : HonestReply B reply) :
+    CachePrefixOK P B (readAt P s o n reply).1.cache ∧
+    WF (readAt P s o n reply).1.fetched ∧
+    InBlob P.size (readAt P s o n reply).1.fetched ∧
+    (∀ x, cov x s.fetched → cov x (readAt P s o n reply).1.fetched) ∧
+    ((readAt P s o n reply).2 = none ∨
+      ∃ buf, (readAt P s o n reply).2 = some (min n (P.size - o), buf) ∧ buf.length = n ∧
+        buf.take (min n (P.size - o)) = slice B o (min n (P.size - o))) := by
+  obtain ⟨h1, h2, h3⟩ := readAt_specQ P B _ (goodQ_prefix P B) hc hB s ⟨hcache, hwf, hin⟩
+    o n reply hr
+  exact ⟨h1.cacheQ, h1.wf, h1.inBlob, h2, h3⟩
 
 -- non-vacuity: blob 0..9, chunk 4; chunk [4,7] cached, chunk [0,3] fetched before
 -- (`exB`, `exS` are defined in SV/Lemmas/Blob.lean)
@@ -171,33 +189,55 @@ example : (readAt ⟨10, 4⟩ exS 8 5 (.parts [⟨8, 9, [8, 9]⟩])).2 = some (2
 
 /-! ## 5. histories -/
 
-/-- Over any history of `ReadAt` / `Cache` / cache-entry loss from the empty state, each op with
-its own arbitrary honest reply: the invariant holds at the end, and every read of the history
-returned an error or exactly the right count and bytes. -/
+/-- Over any history of `ReadAt` / `Cache` / cache-entry loss / cache-entry truncation from the
+empty state, each op with its own arbitrary honest reply: every read of the history returned an
+error or exactly the right count and bytes; at the end no cache entry holds wrong bytes, and the
+fetched set is well-formed and inside the blob. -/
 theorem history_exact (P : Params) (B : Bytes) (hc : 0 < P.chunk) (hB : B.length = P.size)
     (ops : List Op) (hh : ∀ op ∈ ops, op.Honest B) :
-    Inv P B (runOps P {} ops) ∧
+    (CachePrefixOK P B (runOps P {} ops).cache ∧ WF (runOps P {} ops).fetched ∧
+      InBlob P.size (runOps P {} ops).fetched) ∧
     ∀ t ∈ trace P {} ops,
       t.2.2 = none ∨ ∃ buf, t.2.2 = some (min t.2.1 (P.size - t.1), buf) ∧ buf.length = t.2.1 ∧
         buf.take (min t.2.1 (P.size - t.1)) = slice B t.1 (min t.2.1 (P.size - t.1)) := by
-  obtain ⟨h1, _, h3⟩ := runOps_spec P B hc hB ops {} (inv_init P B) hh
-  exact ⟨h1, h3⟩
+  obtain ⟨h1, _, h3⟩ := runOps_specQ P B _ (goodQ_prefix P B) hc hB ops {} (invQ_init P _) hh
+    (Or.inr (truncClosed_prefix P B))
+  exact ⟨⟨h1.cacheQ, h1.wf, h1.inBlob⟩, h3⟩
+
+/-- Without truncation ops (the cache returns entries all-or-nothing, what C11 establishes for the
+real cache) the strong invariant `CacheOK` holds after every history. -/
+theorem history_cacheOK (P : Params) (B : Bytes) (hc : 0 < P.chunk) (hB : B.length = P.size)
+    (ops : List Op) (hh : ∀ op ∈ ops, op.Honest B) (hnt : ∀ op ∈ ops, op.isTrunc = false) :
+    Inv P B (runOps P {} ops) :=
+  (runOps_spec P B hc hB ops {} (inv_init P B) hh hnt).1
 
 /-- `FetchedSize` over a history: monotone from any reachable state on, and bounded. -/
 theorem history_fetchedSize (P : Params) (B : Bytes) (hc : 0 < P.chunk) (hB : B.length = P.size)
     (pre ops : List Op) (hp : ∀ op ∈ pre, op.Honest B) (hh : ∀ op ∈ ops, op.Honest B) :
     totalSize (runOps P {} pre).fetched ≤ totalSize (runOps P (runOps P {} pre) ops).fetched ∧
     totalSize (runOps P (runOps P {} pre) ops).fetched ≤ P.size := by
-  obtain ⟨h1, _, _⟩ := runOps_spec P B hc hB pre {} (inv_init P B) hp
-  obtain ⟨k1, k2, _⟩ := runOps_spec P B hc hB ops _ h1 hh
-  exact fetchedSize_of_inv P B _ _ h1 k1 k2
+  obtain ⟨h1, _, _⟩ := runOps_specQ P B _ (goodQ_prefix P B) hc hB pre {} (invQ_init P _) hp
+    (Or.inr (truncClosed_prefix P B))
+  obtain ⟨k1, k2, _⟩ := runOps_specQ P B _ (goodQ_prefix P B) hc hB ops _ h1 hh
+    (Or.inr (truncClosed_prefix P B))
+  exact fetchedSize_of_inv P _ _ _ h1 k1 k2
 
 example : exB.length = (⟨10, 4⟩ : Params).size := by decide
 example : ∀ op ∈ [Op.read 3 6 (.parts [⟨0, 9, exB⟩]), .drop ⟨4, 7⟩, .cache 0 10 .fail,
-    .read 5 2 (.parts [⟨4, 7, [4, 5, 6, 7]⟩])], op.Honest exB := by decide
+    .trunc ⟨0, 3⟩ 2, .read 5 2 (.parts [⟨4, 7, [4, 5, 6, 7]⟩]), .read 1 3 (.parts [⟨0, 3, [0, 1, 2, 3]⟩]),
+    .read 0 2 .fail], op.Honest exB := by decide
+-- the read at (1,3) after the truncation of [0,3] to 2 bytes refetches; the read at (0,2) is
+-- served from the truncated entry
 example : trace ⟨10, 4⟩ {} [.read 3 6 (.parts [⟨0, 9, exB⟩]), .drop ⟨4, 7⟩, .cache 0 10 .fail,
-    .read 5 2 (.parts [⟨4, 7, [4, 5, 6, 7]⟩])]
-    = [(3, 6, some (6, [3, 4, 5, 6, 7, 8])), (5, 2, some (2, [5, 6]))] := by decide
+    .trunc ⟨0, 3⟩ 2, .read 5 2 (.parts [⟨4, 7, [4, 5, 6, 7]⟩]), .read 1 3 (.parts [⟨0, 3, [0, 1, 2, 3]⟩]),
+    .read 0 2 .fail]
+    = [(3, 6, some (6, [3, 4, 5, 6, 7, 8])), (5, 2, some (2, [5, 6])), (1, 3, some (3, [1, 2, 3])),
+       (0, 2, some (2, [0, 1]))] := by decide
+example : ∀ op ∈ [Op.read 3 6 (.parts [⟨0, 9, exB⟩]), .drop ⟨4, 7⟩, .cache 0 10 .fail],
+    op.isTrunc = false := by decide
+-- a truncated entry satisfies the weak invariant but not the strong one
+example : QPrefix ⟨10, 4⟩ exB ⟨4, 7⟩ [4, 5] ∧ ¬ QExact ⟨10, 4⟩ exB ⟨4, 7⟩ [4, 5] := by
+  refine ⟨⟨by decide, by decide⟩, fun h => absurd h.1 (by decide)⟩
 
 /-! ## 1. bytesWriter -/
 
